@@ -307,10 +307,21 @@ def _end_of_data_fact(body, bb):
     return None
 
 
+def _then_condition(body, bb):
+    """for `cond.then(|| ..)` / `cond.then_some(..)` at bb: the fact `cond` (the closure runs only when it is true)"""
+    t = body.term(bb)
+    if t["k"] != "call" or t["f"].get("name") not in ("then", "then_some") or not (t["f"].get("q") or "").startswith("bool::") or not t["args"]:
+        return []
+    c = peel(body.operand_expr(t["args"][0]), through_try=False)
+    if c.k == "bin" and c.op in ("Eq", "Ne", "Lt", "Le", "Gt", "Ge"):
+        return [(c.op, c.a, c.b)]
+    return []
+
+
 def _all_emitted_fact(body, bb):
     """a dominating `self.P == self.D.len()` (or >=) edge: the position field has reached the end of the data held in self"""
     from ..mir import self_field_path
-    for f in facts_at(body, bb):
+    for f in list(facts_at(body, bb)) + _then_condition(body, bb):
         if f[0] not in ("Eq", "Ge", "Le"):
             continue
         for pos, ln in ((f[1], f[2]), (f[2], f[1])):
@@ -337,6 +348,14 @@ def rule_r6(facts, col):
         sites = []
         for bb, t in body.calls_to(AGAIN):
             sites.append((body, bb, None))
+        # ... or in a closure built here and handed to a call (`done.then(|| self.repeat.again())`): judged at that call
+        for bb, t in body.calls():
+            for a in t["args"]:
+                e = peel(body.operand_expr(a), through_try=False)
+                if e is not None and e.k == "agg" and e.ak == "closure" and e.q:
+                    cb = facts.by_path.get(e.q)
+                    if cb is not None and list(cb.calls_to(AGAIN)):
+                        sites.append((body, bb, cb.q))
         for bb, t in body.calls():
             for q in Body.callee_qs(t):
                 for hb in facts.by_q.get(q, []):
@@ -396,7 +415,8 @@ def _root_local_of(body, op):
     for _ in range(6):
         ds = body.defs().get(l, [])
         if len(ds) == 1 and ds[0][2] == "rv" and ds[0][3]["k"] in ("ref", "rawptr") and not ds[0][3]["p"]["p"]:
-            return ds[0][3]["p"]["l"]
+            l = ds[0][3]["p"]["l"]      # ... and on through plain moves of the referenced local (`_11 = move _19`)
+            continue
         if len(ds) == 1 and ds[0][2] == "rv" and ds[0][3]["k"] == "use":
             q = ds[0][3]["a"].get("c") or ds[0][3]["a"].get("m")
             if q is None or q["p"]:
